@@ -295,7 +295,8 @@ def run(ctx):
     ctx.coverage.update({"random_cubes": n_rand, "exhaustive_cubes": n_exh, "cubes": n_cubes, "blocks_compared_in_coq": len(cases),
                          "cubes_outside_domain": n_unc, "index_errors": n_raised})
     if n_exh:
-        ctx.coverage["exhaustive"] = "all 2-dimension x 3-row x 3-category x common in {0,1,2,absent} cubes (%d)" % n_exh
+            ctx.coverage["exhaustive_subspace"] = ("all 2-dimension x 3-row x 3-category x common in {0,1,2,absent} cubes (%d) "
+                                            "(a complete sub-space; the random stream is not exhaustive)" % n_exh)
     ctx.evaluations = len(cases)
 
     prelude = "From Catii Require Import Cube.Dim Cube.Walk Cube.Region Cube.Count Cube.Check."
